@@ -43,6 +43,18 @@ KNOWN_CLASSES = {
 }
 
 PROPS = {
+    "C16": {
+        "lean_modules": ["TableauVerif.Props.C16"],
+        "oracles": ["c16.hist"],
+        "streams": [
+            ("e2e.C16.history", 60, 600, 8),
+        ],
+        "assumptions": [
+            "every history is executed in ONE child process and its last call again in a FRESH child process (real GenProto/GenConf on generated inputs that reuse package, workbook, sheet, enum and column names); observation = files written (hashes) or error code of the last call",
+            "modelled: the two lazily filled process-wide caches as key→table maps; the cache keys are re-read from the source on every run (pin_cache_keys); other process-wide state (metasheet name, language, log) is only exercised by the histories, not modelled",
+            "load.Load has no language option (D33) — not covered by the pool of calls",
+        ],
+    },
     "C04": {
         "lean_modules": ["TableauVerif.Props.C04", "TableauVerif.Props.C11"],
         "oracles": ["c04.det", "c11.merge"],
